@@ -70,6 +70,8 @@ class Check(core.CheckBase):  # pylint: disable=too-many-public-methods
         import cryptoparser.tls.subprotocol as sub  # pylint: disable=import-outside-toplevel
         self.sub = sub
         self.InvalidValue = InvalidValue  # pylint: disable=invalid-name
+        from cryptoparser.common.exception import NotEnoughData  # pylint: disable=import-outside-toplevel
+        self.NotEnoughData = NotEnoughData  # pylint: disable=invalid-name
         self.flag_classes = {}
         for name, cls in inventory.int_enums().items():
             values = [int(member) for member in cls]
@@ -360,6 +362,24 @@ class Check(core.CheckBase):  # pylint: disable=too-many-public-methods
             except Exception as e:  # pylint: disable=broad-except
                 found.append(self.violation('mpint|ssh-compose-raises:%s|%s' % (type(e).__name__, sign),
                                             'compose_ssh_mpint(%d-bit %s): %r' % (value.bit_length(), sign, e), single))
+            if len(reference) > 4:
+                # the length field is complete, the body is not
+                for present in sorted({4, len(reference) - 1, 4 + (len(reference) - 4) // 2}):
+                    self.stats['short_mpint_buffers'] += 1
+                    short = self.parse.ParserBinary(reference[:present])
+                    try:
+                        short.parse_ssh_mpint('value')
+                        found.append(self.violation(
+                            'mpint|ssh-short-buffer-accepted|' + sign,
+                            'parse_ssh_mpint on %d of %d octets returned %r and reports %d octets read' % (
+                                present, len(reference), short['value'], short.parsed_length), single))
+                        break
+                    except self.NotEnoughData:
+                        pass
+                    except Exception as e:  # pylint: disable=broad-except
+                        found.append(self.violation('mpint|ssh-short-buffer-raises:%s|%s' % (type(e).__name__, sign),
+                                                    'parse_ssh_mpint on %d of %d octets: %r' % (present, len(reference), e), single))
+                        break
             try:
                 for suffix in (b'\x01\x02\x03', b'\xff', b'\x80\x00', b''):
                     parser = self.parse.ParserBinary(reference + suffix)
@@ -396,6 +416,21 @@ class Check(core.CheckBase):  # pylint: disable=too-many-public-methods
                             'mpint|fixed-parse-mismatch',
                             'parse_mpint(length=%d) of a %d-bit value returned a different value' % (
                                 length, value.bit_length()), single))
+                    # fewer octets than the field is wide: nothing to read a value from (no value made of what is there)
+                    for present in sorted({0, 1, length // 2, length - 1}):
+                        if not 0 <= present < length:
+                            continue
+                        self.stats['short_mpint_buffers'] += 1
+                        short = self.parse.ParserBinary(want[:present])
+                        try:
+                            short.parse_mpint('value', length)
+                            found.append(self.violation(
+                                'mpint|fixed-short-buffer-accepted',
+                                'parse_mpint(length=%d) on %d octets returned %r and reports %d octets read' % (
+                                    length, present, short['value'], short.parsed_length), single))
+                            break
+                        except self.NotEnoughData:
+                            pass
                 except Exception as e:  # pylint: disable=broad-except
                     found.append(self.violation('mpint|fixed-raises:%s' % type(e).__name__,
                                                 'fixed mpint %d-bit length %d: %r' % (value.bit_length(), length, e),
